@@ -130,3 +130,163 @@ func Reachable(p *model.Project) map[string]bool {
 	}
 	return seen
 }
+
+// ---- C06: finiteness and self-requirement of type graphs
+
+// mandatoryLinks lists, for an object node, the groups of alternative targets of every mandatory,
+// non-nullable, non-array property (one group per property: one name = plain link, several = choice).
+func mandatoryLinks(n *model.Node) [][]string {
+	var out [][]string
+	if n == nil || n.Kind != "object" {
+		return out
+	}
+	for i, k := range n.Kids {
+		if n.Keys[i].Shortcut {
+			continue // whether {@k: ...} requires an instance is not settled; generators do not use it here
+		}
+		if k.Kind != "ref" && k.Kind != "choice" {
+			// nested plain objects: their mandatory links are mandatory for the parent too
+			if k.Kind == "object" && !optionalOrNullable(k) {
+				out = append(out, mandatoryLinks(k)...)
+			}
+			continue
+		}
+		if optionalOrNullable(k) {
+			continue
+		}
+		out = append(out, k.Refs)
+	}
+	return out
+}
+
+func optionalOrNullable(k *model.Node) bool {
+	for _, r := range k.Rules {
+		if (r.Name == "optional" || r.Name == "nullable") && r.Val.Lit == "true" {
+			return true
+		}
+	}
+	return false
+}
+
+func typeNode(p *model.Project, name string) *model.Node {
+	if name == "@main" {
+		return p.Root
+	}
+	if t := p.Type(name); t != nil {
+		return t.Node
+	}
+	return nil
+}
+
+// Finite computes the set of types that have a finite instance (least fixed point).
+func Finite(p *model.Project) map[string]bool {
+	names := []string{"@main"}
+	for _, t := range p.Types {
+		names = append(names, t.Name)
+	}
+	fin := map[string]bool{}
+	for changed := true; changed; {
+		changed = false
+		for _, n := range names {
+			if fin[n] {
+				continue
+			}
+			node := typeNode(p, n)
+			ok := true
+			if node != nil && (node.Kind == "ref" || node.Kind == "choice") {
+				// a type that is itself a reference / choice: finite if some alternative is
+				ok = false
+				for _, r := range node.Refs {
+					if fin[r] {
+						ok = true
+					}
+				}
+			} else {
+				for _, group := range mandatoryLinks(node) {
+					any := false
+					for _, tg := range group {
+						if fin[tg] {
+							any = true
+						}
+					}
+					if !any {
+						ok = false
+					}
+				}
+			}
+			if ok {
+				fin[n] = true
+				changed = true
+			}
+		}
+	}
+	return fin
+}
+
+// SelfRequired: @main is reachable from @main along mandatory plain (single-target) links only.
+// It also returns the length of the shortest such cycle (0 if none).
+func SelfRequired(p *model.Project) (bool, int) {
+	type item struct {
+		name  string
+		depth int
+	}
+	seen := map[string]bool{}
+	queue := []item{{"@main", 0}}
+	for len(queue) > 0 {
+		it := queue[0]
+		queue = queue[1:]
+		node := typeNode(p, it.name)
+		var groups [][]string
+		if node != nil && node.Kind == "ref" {
+			groups = [][]string{node.Refs}
+		} else {
+			groups = mandatoryLinks(node)
+		}
+		for _, g := range groups {
+			if len(g) != 1 {
+				continue
+			}
+			if g[0] == "@main" {
+				return true, it.depth + 1
+			}
+			if !seen[g[0]] {
+				seen[g[0]] = true
+				queue = append(queue, item{g[0], it.depth + 1})
+			}
+		}
+	}
+	return false, 0
+}
+
+// HasCycle reports whether the reference graph (any kind of link) has a cycle.
+func HasCycle(p *model.Project) bool {
+	names := []string{"@main"}
+	for _, t := range p.Types {
+		names = append(names, t.Name)
+	}
+	state := map[string]int{}
+	var dfs func(n string) bool
+	dfs = func(n string) bool {
+		state[n] = 1
+		node := typeNode(p, n)
+		if node != nil {
+			ms, _ := Mentions(node)
+			for _, m := range ms {
+				if state[m] == 1 {
+					return true
+				}
+				if state[m] == 0 && dfs(m) {
+					return true
+				}
+			}
+		}
+		state[n] = 2
+		return false
+	}
+	for _, n := range names {
+		if state[n] == 0 && dfs(n) {
+			return true
+		}
+	}
+	return false
+}
